@@ -69,6 +69,10 @@ def spec_strategy(draw, lines=False):
 
 def run_case(spec, lines=False):
     obs = sv.run_server(spec, probes=len(spec['probe_rids']), max_stall=0.05, stall_budget=0.5, lines=lines)
+    return _judge(spec, obs, lines, 'sync')
+
+
+def _judge(spec, obs, lines, flavour):
     out = obs.out
     hang_check(out)
     if out.exc is not None:
@@ -111,10 +115,15 @@ def run_case(spec, lines=False):
     return CaseInfo(
         nontrivial=timed_out >= 1 or abandoned_stream,
         descriptor=[tree, spec['reqs'], spec['callers'], spec['streams'], out.sim.trace[:60]],
-        classes=tuple([f'timeouts{min(timed_out, 3)}', 'abandoned_stream' if abandoned_stream else 'no_abandoned_stream', f"sched_{spec['sched']['kind']}", 'stalled' if out.sim.stall_used > 0 else 'nostall', 'lines' if lines else 'syncpoints']),
+        classes=tuple([flavour, f'timeouts{min(timed_out, 3)}', 'abandoned_stream' if abandoned_stream else 'no_abandoned_stream', f"sched_{spec['sched']['kind']}", 'stalled' if out.sim.stall_used > 0 else 'nostall', 'lines' if lines else 'syncpoints']),
         metrics={'steps': out.sim.steps, 'timed_out': timed_out},
         sample={'tree': tree, 'calls': [(c[0]['rid'], c[0]['timeout'], sum(reqs[c[0]['rid']]['d'].values())) for c in spec['callers']], 'streams': spec['streams'], 'outcomes': [(r['rid'], r['kind']) for r in obs.calls], 'probes': [(r['rid'], r['kind']) for r in obs.probe_results]},
     )
+
+
+def run_async(spec):
+    obs = sv.run_async_server(spec, probes=len(spec['probe_rids']))
+    return _judge(spec, obs, False, 'async')
 
 
 def run_case_lines(spec):
@@ -155,4 +164,5 @@ RULE = (
 FAMILIES = [
     Family('F1_timeouts_streams', 'sim', spec_strategy(), run_case, quick=2500, thorough=100_000, shards_quick=10, rule=RULE, setup=_warm),
     Family('F2_line_preemption', 'sim', spec_strategy(lines=True), run_case_lines, quick=500, thorough=30_000, shards_quick=6, rule=RULE, setup=_setup_lines),
+    Family('F3_async_server', 'sim', spec_strategy(), run_async, quick=1200, thorough=60_000, shards_quick=8, rule='as F1 for AsyncServer (caller deadline via asyncio.wait_for on the loop, gather thread off the loop); probes and clean exit likewise.', setup=_warm),
 ]
